@@ -607,11 +607,11 @@ theorem C17_removed_holds_in_chunk {μ : Type} (ops : ModOps μ ℝ) (dtFrame : 
     and one shorter last chunk: no chunk is empty or longer than the buffer, together they are the callback
     (so each modulator is updated exactly `⌈frames / size⌉` times per callback, once per chunk). -/
 theorem C17_chunk_sizes (frames ibs : ℕ) (hibs : 0 < ibs) :
-    ∃ l, chunkSizes frames ibs = some l ∧ l.sum = frames ∧ (∀ n ∈ l, 0 < n ∧ n ≤ ibs)
+    ∃ l, modChunkSizes frames ibs = some l ∧ l.sum = frames ∧ (∀ n ∈ l, 0 < n ∧ n ≤ ibs)
       ∧ l.length = (frames + ibs - 1) / ibs := by
   have h0 : ibs ≠ 0 := Nat.pos_iff_ne_zero.mp hibs
   refine ⟨List.replicate (frames / ibs) ibs ++ (if frames % ibs = 0 then [] else [frames % ibs]),
-    by simp [chunkSizes, h0], ?_, ?_, ?_⟩
+    by simp [modChunkSizes, h0], ?_, ?_, ?_⟩
   · by_cases hm : frames % ibs = 0
     · simp only [hm, if_true, List.append_nil, List.sum_replicate, smul_eq_mul]
       have := Nat.div_add_mod frames ibs; rw [hm] at this; linarith [Nat.mul_comm (frames / ibs) ibs]
